@@ -533,6 +533,21 @@ def r8(ctx, rep):
     rep.borrowed(C01.r1, ctx, "C04.R8", "a windowed compute is evaluated on the rows its position in the pipeline denotes", only=r"^req:\w+:Compute$")
 
 
+def r9(ctx, rep):
+    rep.rule("C04.R9", "a RANGE frame with offsets is emitted only together with an ORDER BY", floor=1)
+    syn = ctx.syn
+    f = syn.fn("gen_expr::translate_windowed", crate="prqlc")
+    # a rejection (`return Err`) whose condition tests the Range kind, an empty order and the bounds, placed before the WindowSpec is built
+    spec_line = min([n["l"] for n in walk(f["body"]) if n.get("k") == "struct" and last_seg(n["p"]) == "WindowSpec"] or [10 ** 9])
+    ok = False
+    for n in walk(f["body"]):
+        if n.get("k") == "if" and n["l"] < spec_line and any(r.get("k") == "return" and "Err" in show(r.get("e"), maxdepth=4) for r in walk(n["t"])):
+            c = show(n["c"], maxdepth=12)
+            ok = ok or ("WindowKind::Range" in c and "is_empty()" in c and ("range.start" in c or "range.end" in c))
+    rep.check(ok, "range-needs-sort", "translate_windowed must reject a frame of kind Range with a numeric offset when there is no sort key: `window range:-2..0 (..)` without a `sort` compiled to "
+              "`RANGE BETWEEN 2 PRECEDING AND CURRENT ROW` with no ORDER BY, which databases reject (and which has no defined meaning)", file=f["file"], line=f["l"], fn=f["path"])
+
+
 def run(ctx, rep):
-    for r in (r1, r2, r3, r4, r5, r6, r7, r8):
+    for r in (r1, r2, r3, r4, r5, r6, r7, r8, r9):
         rep.guard(r, ctx)
